@@ -13,7 +13,7 @@ META = {
     "property_id": PID,
     "level": "exploration",
     "technique": "TLA+ SQLSem meaning of every concurrently executed read-only query over the fixed database + quiescence rule for the registries; TLC trace validation of executions recorded under the Go race detector",
-    "text": "Every result produced while 8-16 sessions query one engine at the same time must be an acceptable result of the query's meaning over the fixed database (so cross-session interference through shared caches, plan caches or registries shows up as a wrong result), the process list and Threads_running must be back to idle/0 at quiescence, and the run is executed under the race detector, whose report is a failure of the 'no data races' clause.",
+    "text": "Every result produced while 8-16 sessions query one engine at the same time must be an acceptable result of the query's meaning over the fixed database (so cross-session interference through shared caches, plan caches or registries shows up as a wrong result), the process list and Threads_running must be back to idle/0 and the engine's shared MemoryManager (passed to every context as server.SessionManager does) must hold no cache of a finished query at quiescence, and the run is executed under the race detector, whose report is a failure of the 'no data races' clause.",
     "note": "Schedules are whatever the Go scheduler produces under load (sampled, not enumerated); queries shared between goroutines use identical texts to hit the same cache keys; the in-memory backend documents that concurrent writes are unsupported, so only reads run concurrently.",
 }
 
@@ -69,7 +69,7 @@ def check(tier):
                     if e["id"] not in ids2:
                         raise lib.Inconclusive("concurrent mismatch did not reproduce: %s" % (e.get("sql") or e))
                     if e["ev"] == "quiesce":
-                        v.add("%s|registries|running=%s busy=%s" % (PID, e["threads_running"], e["busy"]), e)
+                        v.add("%s|registries|running=%s busy=%s caches=%s" % (PID, e["threads_running"], e["busy"], "0" if not e.get("caches") else "leaked"), e)
                     else:
                         v.add(sc.signature(PID, e) + "|concurrent", {"sql": e["sql"], "got": e["res"], "goroutine": e["g"], "expected_rows": sc.pretty_rows(m.get("exp", []))})
         rc = v.finish()
